@@ -15,7 +15,9 @@ CLAIMED = {
           "excluded inner shape, an escaped backslash directly before a plain ']', really fails (known finding D27, "
           "proved as a refutation). Proved on the runner "
           "model: option groups keep every option in order with its tags, Disabled is false without a condition and the "
-          "negated boolean otherwise, interpolated values are concatenated in order in their display forms. The "
+          "negated boolean otherwise, interpolated values are concatenated in order in their display forms; a number "
+          "whose value is an integer in the int64 range is displayed as that integer's digits (optional minus sign, "
+          "digits only), booleans as True/False, strings verbatim. The "
           "generated lexer itself and strconv's number formatting are modelled and compared on every run; the escapes "
           "family runs token lists of known meaning through NewDialogueRunner/Next and judges the implementation against "
           "that meaning, independently of the model.",
@@ -54,13 +56,16 @@ CLAIMED = {
   "text": "Partial. Proved for the hand-written indentation wrapper (through the NextToken protocol theorem of C20): the "
           "token stream handed to the parser depends only on the order type of the indentation widths (any strictly "
           "monotone re-labelling: 1-8 blanks or tabs per level) and blank / whitespace-only / comment-only lines at any "
-          "indentation are transparent. Not proved: that the generated lexer/parser treat CRLF, redundant parentheses, "
-          "operator spellings, blanks inside commands and reader splits alike - every generated program is rendered "
-          "under 11 layouts and all parsed dialogues and traces are compared. Known finding D10.",
+          "indentation are transparent. Proved for the expression rule (parser model over the precedence table "
+          "regenerated from the Go source on every run): redundant parentheses never change the parsed expression "
+          "(C08_redundant_parentheses_never_matter, minimal and maximal parenthesisation agree). Not proved: that the "
+          "generated lexer/parser treat CRLF, operator spellings, blanks inside commands and reader splits alike - every "
+          "generated program is rendered under 11 layouts and all parsed dialogues and traces are compared; family "
+          "exprparse writes expressions with random spellings and redundant parentheses. Known finding D10.",
   "design_ref": "DESIGN.md section 5, C08",
   "note": "Axiom-free theorems (closed under the global context). The staged parse(print(l, d)) = d round trip over a "
-          "transcribed grammar was not built; the implementation's own parser is used as the oracle for it.",
-  "technique": "Coq proof on the indentation wrapper model + metamorphic correspondence check across layouts",
+          "transcribed statement grammar was not built; the implementation's own parser is used as the oracle for it.",
+  "technique": "Coq proof on the indentation wrapper model and on the expression-parser model (table regenerated from source) + metamorphic correspondence check across layouts",
  },
  "C16": {
   "text": "Theorems over a universe of Go types described by what reflect reports (kind, identity of a defined type, implements error, channel "
@@ -81,9 +86,12 @@ CLAIMED = {
           "for finite |x| < 2^52: inc(x) = floor(x)+1 exactly (least integer greater than x) and dec(x) = ceil(x)-1 "
           "exactly; bool(string(b)) = b, identity on values of the target type, non-boolean / non-numeric strings are "
           "errors; integer(x) + decimal(x) = x exactly for EVERY finite double (the fractional part x - trunc(x) is itself "
-          "a double, has the sign of x and magnitude below 1). Not proved: round_places' envelope, number(string(x)) = x (strconv). "
-          "Those are judged on every generated input by an exact-rational oracle; the strict half-unit bound of "
-          "round_places is refuted (known finding D23).",
+          "a double, has the sign of x and magnitude below 1); round_places: for every finite x and 0 <= n <= 22, "
+          "|round_places(x,n) - x| <= (1/2)10^-n (1+u) + |x|(2u+u^2) + 3 eta with u = 2^-53, eta = 2^-1075 "
+          "(C19_round_places_envelope: the two roundings of product and quotient, math.Round exact, 10^n exact by a "
+          "finite sweep) - the strict half-unit bound is refuted (known finding D23). Not proved: number(string(x)) = x "
+          "(correctness of the shortest-digits formatter against the parser), judged on every generated input by an "
+          "exact-rational oracle.",
   "design_ref": "DESIGN.md section 5, C19",
   "note": "Axioms: ClassicalDedekindReals.sig_not_dec, sig_forall_dec, functional_extensionality_dep, "
           "Classical_Prop.classic (Coq's real numbers). IEEE-754 binary64 = Flocq binary_float 53 1024, round to "
@@ -117,17 +125,27 @@ CLAIMED = {
   "technique": "Coq proof of range theorems + differential correspondence check with repeated and child-process executions",
  },
  "C02": {
-  "text": "Partial. Proved for the evaluator model: a binary operation on values is exactly the operator table (unless "
+  "text": "Proved for the evaluator model: a binary operation on values is exactly the operator table (unless "
           "the left operand of and/or already decides), operands of different types are an error for all 14 operators, "
           "unary operators, laziness of and/or (the right operand's host calls do not happen), function arguments are "
-          "evaluated left to right, each once, stopping at the first failure, then the call. Not proved: that the "
-          "ANTLR grammar and the listener's callback stack group operators by the stated precedence - the "
-          "correspondence family prints trees with minimal/redundant parentheses and every operator spelling and "
-          "requires parse(print(tree)) = tree from the implementation's own parser before comparing values.",
+          "evaluated left to right, each once, stopping at the first failure, then the call. Grouping: the expression "
+          "rule of the generated parser is modelled as the precedence-climbing loop its Go code spells out "
+          "(Syntax/ExprParser.v) over the table of precedence-predicate levels that tools/gen_exprtable.py extracts from "
+          "internal/parser/yarnspinner_parser.go and internal/tree/expression.go on every run; proved against that "
+          "table: it orders the operators as the property states (C02_precedence_table), every expression tree written "
+          "down with parentheses where the table requires them and anywhere else is read back as that tree "
+          "(C02_written_expression_is_read_back, minimal and full parenthesisation as corollaries), a written form "
+          "determines its tree, a o1 b o2 c groups to the tighter operator and otherwise to the left, prefix operators "
+          "take only the following primary, parentheses override. Partial: that AdaptivePredict takes the decision the "
+          "precedence predicates prescribe, the lexer (spellings, literals) and the listener's callback stack are "
+          "modelled/observed - family exprparse compares the parser model with the implementation's parser+listener on "
+          "token sequences (and judges written-down trees against the generator's own table), family exprs requires the "
+          "AST round trip before comparing values.",
   "design_ref": "DESIGN.md section 5, C02",
   "note": "Numbers are Flocq binary64 with round-to-nearest-even; math.Mod is an exact remainder model. Axioms: the four "
-          "stdlib axioms behind Flocq's reals.",
-  "technique": "Coq proof of the operator table and evaluation order + differential correspondence check with AST round trip",
+          "stdlib axioms behind Flocq's reals for the evaluator theorems; the grouping theorems are closed under the "
+          "global context. The parser theorems hold for all sufficient fuel (eventually).",
+  "technique": "Coq proof of the operator table and evaluation order; Coq proof of parse(print(tree)) = tree for a precedence-climbing model over a table regenerated from the Go source on every run (translator) + differential correspondence checks",
  },
  "C13": {
   "text": "Partial. The model mirrors markup/line_parser.go function by function (markers, properties of every value "
@@ -204,28 +222,38 @@ CLAIMED = {
           "visit counts, the host's command behaviour and the random stream (next_sim), and rebuilding a store from "
           "GetValues gives the same map; hence a snapshot of a runner at a node entry restored into ANY runner yields "
           "the same elements for every subsequent choice sequence, and two runners restored from one snapshot continue "
-          "identically (restored_runners_agree). Self-containedness "
-          "of snapshot objects (no shared maps) cannot be stated in a value-based model and is checked by the "
-          "correspondence family (old snapshots re-read after further steps, two runners restored from one snapshot).",
+          "identically (restored_runners_agree). Self-containedness is proved on a second, heap-explicit model of "
+          "Snapshot / RestoreAt / the jump checkpoint / the storer (Yarn/SnapHeap.v: Go maps are heap objects, every "
+          "make+copy loop an allocation): in every configuration reachable by any history of runner creations, "
+          "assignments, jumps, snapshots, restores and host edits of snapshots no map is shared (C07_no_map_is_ever_shared), "
+          "hence nothing any runner does changes a snapshot (C07_snapshot_is_self_contained) or another runner - also one "
+          "restored from the same snapshot (C07_runners_do_not_influence_one_another); the pre-repair Snapshot() that hands "
+          "out the runner's own maps is refuted on the same model (shared_snapshot_is_not_self_contained).",
   "design_ref": "DESIGN.md section 5, C07",
-  "note": "Partial: aliasing of Go maps is observed, not proved. The simulation assumes the same host behaviour and the "
-          "same random stream to come in both runners (the property restricts itself to scripts without random "
-          "functions, for which the stream is irrelevant; that irrelevance is not a separate theorem).",
-  "technique": "Coq proof of restore/snapshot state equations and of a simulation through Next + differential correspondence check over operation histories",
+  "note": "Partial: that the Go code allocates where the heap model allocates is observed by family snap (old snapshot "
+          "objects re-read after further steps, two runners restored from one snapshot), not proved. The simulation "
+          "assumes the same host behaviour and the same random stream to come in both runners (the property restricts "
+          "itself to scripts without random functions).",
+  "technique": "Coq proof of restore/snapshot state equations, of a simulation through Next, and of a separation invariant + frame theorems on a heap-explicit model + differential correspondence check over operation histories",
  },
  "C10": {
   "text": "Theorems: with a pending command Next returns Waiting and changes only the poll count (pending_is_inert), on "
           "completion it behaves exactly like the same state without a pending command (resume_after_completion, then "
           "C01), an error is surfaced once, a registered handler is invoked exactly once with the evaluated arguments, "
-          "stop is never dispatched. Correspondence: scripts x completion schedules imposed through harness-owned "
-          "channels; <<wait>> with real timers; the three handler shapes of ConvertAndAddCommand (two of them running on "
-          "goroutines of the bridge, blocked until the schedule releases them), snapshots and restores while a command "
-          "is pending and re-execution of the command afterwards (family convcmds).",
+          "stop is never dispatched. <<wait n>>: the duration handed to time.Sleep, time.Duration(n * 1e9), is at least "
+          "n seconds up to one binary64 rounding and the truncation to whole nanoseconds, for every finite n >= 0, "
+          "fractional n included (C10_wait_duration_at_least_n_seconds, through Flocq), so a completion is not reported "
+          "earlier (C10_wait_not_reported_early). Correspondence: scripts x completion schedules imposed through "
+          "harness-owned channels; family waits measures <<wait n>> on real timers (sub-millisecond, fractional "
+          "millisecond, zero; a measured time below n seconds is a violation whatever the load); the three handler shapes "
+          "of ConvertAndAddCommand (two of them running on goroutines of the bridge, blocked until the schedule releases "
+          "them), snapshots and restores while a command is pending and re-execution of the command afterwards (family "
+          "convcmds).",
   "design_ref": "DESIGN.md section 5, C10",
-  "note": "Partial: data-race freedom and the real duration of <<wait n>> are outside the model (channels are an option "
-          "cell filled by the environment; goroutine-backed handlers are exercised by the harness, which polls Next until "
-          "the bridge has reported when a command is due).",
-  "technique": "Coq proof of the pending-command automaton + differential correspondence check with imposed schedules",
+  "note": "Partial: data-race freedom is outside the model (channels are an option cell filled by the environment; "
+          "goroutine-backed handlers are exercised by the harness, which polls Next until the bridge has reported when a "
+          "command is due); that time.Sleep(d) returns no earlier than d later is the Go runtime's contract, observed only.",
+  "technique": "Coq proof of the pending-command automaton and of the wait duration bound (Flocq) + differential correspondence check with imposed schedules and real timers",
  },
  "C11": {
   "text": "Theorem: for every history of Next calls and restores, visited_count(n) = count at the last restore + number "
